@@ -13,8 +13,10 @@ void run1(ReplayCtx& ctx, const std::string& oname) {
 }
 template <class O>
 void run(ReplayCtx& ctx, const std::string& oname) {
-  run1<O, IdSeq>(ctx, oname);
-  run1<O, IdGap>(ctx, oname);
+  const char* e = std::getenv("VF_IDS");
+  std::string ids = e ? e : "both";
+  if (ids != "gap") run1<O, IdSeq>(ctx, oname);
+  if (ids != "seq") run1<O, IdGap>(ctx, oname);
 }
 
 // FL, Z2, CT, IDX, Vine, Rep, Barcode, RowAccess, RemRows, MapCols
